@@ -1,12 +1,13 @@
 PROP = {
     "id": "C37",
     "theorem_modules": ["Verif.Properties.C37"],
-    "min_theorems": 12,
+    "min_theorems": 13,
     "required_theorems": [
         "Verif.Properties.C37.lexer_clear_complete",
         "Verif.Properties.C37.token_numbering_pinned",
         "Verif.Properties.C37.depth_guard",
         "Verif.Properties.C37.tokens_contiguous",
+        "Verif.Properties.C37.lex_total",
         "Verif.Properties.C37.lex_loops_total_partial",
         "Verif.Properties.C37.linecol_witness_multibyte",
         "Verif.Properties.C37.linecol_witness_empty_token",
@@ -25,9 +26,9 @@ PROP = {
                  "(pooled struct vs clear(), token numbering, limits, depth guards) + correspondence stream on generated "
                  "byte strings; parser and checker by direct-oracle stream only",
     "level_text": "Lean theorems about a code-shaped model of the lexer, for every byte string: consecutive consuming tokens "
-                  "are contiguous from offset 0 (tokens_contiguous, full); totality only PARTIAL (the inner loops and emit "
-                  "stay inside the input and raise no panic from any in-bounds state; the composition through the state "
-                  "functions and run's fuel bound are not proved, the stream flags any hang/panic); line/column exactness is "
+                  "are contiguous from offset 0 (tokens_contiguous, full); totality of the lexer port (lex_total, full: run's fuel "
+                  "2*len+4 suffices, no second-backup panic, no slice panic, no exhausted loop fuel - by an invariant through all "
+                  "seven state functions and the measure 2*(len-endOffset)+rank); line/column exactness is "
                   "NOT proved: two column defects are proved as witnesses (known findings) and positions are judged per input "
                   "by the stream against Spec.LineCol; `decide` obligations over facts regenerated from /repo: clear() resets every field of the pooled "
                   "lexer to the model's initial state, token numbering, tokenLimit, the parser's two depth guards. Tied to "
